@@ -86,9 +86,14 @@ def _expect(c, vals, milk, fish, gh, m):
                 meat=pct(vals["meat_eaten"][m]), milk=pct(milk[m]))
 
 
+def _filler(key, m):
+    """concrete, pairwise different values for the months that are not symbolic"""
+    return 3.0 + (sum(ord(ch) for ch in key) % 17) * 0.5 + 0.25 * m
+
+
 def worker_chain(case, seed):
     om, ex, ir, fd, uc = _mods()
-    consts = _real_constants(case.get("country", "ARG"))
+    consts = dict(_real_constants(case.get("country", "ARG")), **case.get("consts", {}))
     N = case["N"]
     E = Engine(seed=seed, max_paths=6000, query_timeout_ms=30000)
     E.div0_mode = "numpy"
@@ -96,20 +101,27 @@ def worker_chain(case, seed):
     os.mkdir(os.path.join(tmp, "results"))
     sym = case.get("sym", PREF)
 
+    symm = case.get("sym_months")           # None: every month symbolic; else only these months (the others carry concrete, distinct values): long horizons stay tractable
+
     def h(E):
         vals = {}
         for p in PREF:
             if p in sym and not p.endswith("_fat") and not p.endswith("_protein"):
-                vals[p] = E.reals(p, N)
+                vals[p] = [E.real("%s_%d" % (p, m)) if (symm is None or m in symm) else np.float64(_filler(p, m)) for m in range(N)]
                 for v in vals[p]:
-                    E.assume(v >= 0)
-                    E.assume(v <= 1e6)
+                    if isinstance(v, SymReal):
+                        E.assume(v >= 0)
+                        E.assume(v <= 1e6)
             else:
                 vals[p] = [0.0] * N
-        milk, fish, gh, prod = E.reals("milk", N), E.reals("fish", N), E.reals("greenhouse", N), E.reals("crop_production", N)
-        for v in milk + fish + gh + prod:
-            E.assume(v >= 0)
-            E.assume(v <= 1e6)
+        if symm is None:
+            milk, fish, gh, prod = E.reals("milk", N), E.reals("fish", N), E.reals("greenhouse", N), E.reals("crop_production", N)
+        else:
+            milk, fish, gh, prod = ([np.float64(_filler(k, m)) for m in range(N)] for k in ("milk", "fish", "greenhouse", "crop_production"))
+        for v in list(milk) + list(fish) + list(gh) + list(prod):
+            if isinstance(v, SymReal):
+                E.assume(v >= 0)
+                E.assume(v <= 1e6)
         captured = {}
 
         class FakeDF:
@@ -163,9 +175,15 @@ def worker_chain(case, seed):
 
 def _concrete_chain(case, m, write_csv=False):
     om, ex, ir, fd, uc = _mods()
-    consts = _real_constants(case.get("country", "ARG"))
+    consts = dict(_real_constants(case.get("country", "ARG")), **case.get("consts", {}))
     N = case["N"]
-    g = lambda k, i: np.float64(m.get("%s_%d" % (k, i), 0.0))
+    symm = case.get("sym_months")
+    sym = case.get("sym", PREF)
+
+    def g(k, i):
+        if symm is not None and i not in symm and (k in ("milk", "fish", "greenhouse", "crop_production") or (k in sym and not k.endswith("_fat") and not k.endswith("_protein"))):
+            return np.float64(_filler(k, i))
+        return np.float64(m.get("%s_%d" % (k, i), 0.0))
     vals = {p: [g(p, i) for i in range(N)] for p in PREF}
     milk, fish, gh, prod = ([g(k, i) for i in range(N)] for k in ("milk", "fish", "greenhouse", "crop_production"))
     tmp = tempfile.mkdtemp(prefix="vp_c04r_")
@@ -333,8 +351,10 @@ def main(tier, seed, only=None):
         rep.fail_inconclusive("concrete validation of the encoding could not run: %s: %s" % (type(e).__name__, str(e)[:200]))
     human = ["stored_food_to_humans", "seaweed_to_humans", "methane_scp_to_humans", "cellulosic_sugar_to_humans", "crops_food_to_humans", "meat_eaten"]
     chain = [dict(N=2, sym=human + ["crops_food_feed", "crops_food_biofuel"]), dict(N=1, sym=PREF)]
+    # a horizon that crosses the first year, in both stock regimes: months 11-13 symbolic, the others concrete (the report has its own per-month clean-up steps)
+    chain += [dict(N=14, sym=["stored_food_to_humans", "meat_eaten"], sym_months=[11, 12, 13], consts=dict(STORE_FOOD_BETWEEN_YEARS=st)) for st in (True, False)]
     if thorough:
-        chain += [dict(N=3, sym=human), dict(N=2, sym=PREF)]
+        chain += [dict(N=3, sym=["stored_food_to_humans", "meat_eaten"]), dict(N=2, sym=PREF)]      # N=3 with three or more symbolic series exceeds 6000 paths
     full = dict.fromkeys(LM.FOODS, True)
     core = dict(SEAWEED=False, OUTDOOR_GROWING=True, STORED_FOOD=True, MEAT=True, METHANE_SCP=False, CELLULOSIC_SUGAR=False)
     stages = [dict(N=n, opt=o, store=s, flags=f) for n in ([4, 14] if not thorough else [3, 4, 9, 14, 15]) for o in ("to_humans", "to_animals") for s in (True, False) for f in (full, core)]
@@ -346,7 +366,7 @@ def main(tier, seed, only=None):
                         "to_monthly_list_outdoor_crops_kcals", "validate_sources_add_up", "validate_outdoor_growing_production", "extract_meat_milk_results", "get_greenhouse_results",
                         "Interpreter.interpret_results", "assign_percent_fed_from_extractor", "assign_kcals_equivalent_from_extractor", "calculate_feed_and_biofuels", "assign_interpreted_properties",
                         "get_sum_by_adding_to_humans", "get_percent_people_fed", "correct_and_validate_rounding_errors", "Food.in_units*", "Food.get_min_nutrient", "Food.get_rounded_to_decimal"],
-             bounds="NMONTHS in {1,2} (thorough 3); constants (population, nutrition, seaweed kcal, fractions) of a real Argentina run", symbolic="the optimiser's variable values (per food, month), milk, fish, greenhouse, crop production",
+             bounds="NMONTHS in {1,2} (thorough 3) with every month symbolic, and 14 months with months 11-13 symbolic in both stock regimes; constants (population, nutrition, seaweed kcal, fractions) of a real Argentina run", symbolic="the optimiser's variable values (per food, month), milk, fish, greenhouse, crop production",
              assumptions=["values >= 0", "paths on which the code's own validators assert are pruned and counted", "series the code rounds for display are compared within the rounding step (0.0005 percent)"],
              stubs=STUBS + ["interpret_results.pd.DataFrame replaced by a recorder (a concrete run writes and re-reads the real CSV)", "interpret_results.repo_root -> scratch directory", "stub model.variables()"],
              outside=["fat/protein series", "float formatting of the CSV beyond the concrete re-read", "more than 3 months (the chain is elementwise per month except the minimum)"], min_completed=1),
